@@ -891,7 +891,8 @@ func (in *Interp) slice(x, lo, hi, mx Val, site ssa.Instruction) Val {
 }
 
 func (in *Interp) lookup(m, k Val, x *ssa.Lookup) Val {
-	if _, isMap := m.(*Map); !isMap && in.Hooks.Lookup != nil {
+	_, constKey := k.(Const)
+	if _, isMap := m.(*Map); (!isMap || !constKey) && in.Hooks.Lookup != nil {
 		if r, ok := in.Hooks.Lookup(in, m, k, x.CommaOk, x); ok {
 			return r
 		}
@@ -902,6 +903,15 @@ func (in *Interp) lookup(m, k Val, x *ssa.Lookup) Val {
 	case *Map:
 		if v, ok := mm.M[Key(k)]; ok {
 			res, found = v, mkBool(true)
+		} else if kb, isBool := boolKey(k); isBool && len(mm.M) > 0 {
+			// a map keyed by an unknown truth value: decide the value like a
+			// branch would (the decision is shared with every other test of it)
+			kc := mkBool(in.Decide(kb, x))
+			if v, ok := mm.M[Key(kc)]; ok {
+				res, found = v, mkBool(true)
+			} else {
+				res = Zero(x.X.Type().Underlying().(*types.Map).Elem())
+			}
 		} else if _, concrete := k.(Const); !concrete && len(mm.M) > 0 {
 			// an unknown key may be any of the entries or none of them: one
 			// path per possibility (the choice is remembered per key, so that
@@ -1522,4 +1532,20 @@ func clipKey(s string) string {
 		return s[:80] + "…"
 	}
 	return s
+}
+
+// boolKey: an unknown value of boolean type.
+func boolKey(k Val) (Val, bool) {
+	if _, isC := k.(Const); isC {
+		return nil, false
+	}
+	sy, ok := k.(*Sym)
+	if !ok || sy.T == nil {
+		return nil, false
+	}
+	b, ok := sy.T.Underlying().(*types.Basic)
+	if !ok || b.Info()&types.IsBoolean == 0 {
+		return nil, false
+	}
+	return k, true
 }
